@@ -110,10 +110,24 @@ func (w *pworld) drain(p *stepper.Peer, max int) bool {
 		w.quietRecord(sx.L(sx.I(8), sx.I(1), sx.S(a), sx.I(k), sx.I(max)))
 	}
 	w.s.DrainSome(p, max)
+	return w.writable(p)
+}
+
+// the loop's writable event for the connection of p
+func (w *pworld) writable(p *stepper.Peer) bool {
 	if !p.EOF && w.s.L.IsOpen(p.ProxyFd) {
 		return guard(func() { w.s.L.Writable(p.ProxyFd) })
 	}
 	return true
+}
+
+// drainOnly: the peer reads, the loop has not seen the writable event yet (epoll reports it in a
+// later round): whatever the loop writes to this connection meanwhile must queue up behind the
+// backlog it still holds
+func (w *pworld) drainOnly(p *stepper.Peer, max int) {
+	a, k := w.backendName(p)
+	w.quietRecord(sx.L(sx.I(8), sx.I(1), sx.S(a), sx.I(k), sx.I(max)))
+	w.s.DrainSome(p, max)
 }
 
 // the fake node answers the complete requests it has READ so far and not answered yet
@@ -224,6 +238,27 @@ func runPressure(seed uint64, idx int) (in sx.V, out sx.V, tags []string) {
 					ok = w.answerRead(p, r.Range(1, 3))
 				}
 				tagset["slow-backend"] = true
+			}
+		case 10:
+			// a backend reads part of its backlog; before the loop handles the writable event, clients
+			// send more requests and a task round writes them
+			if len(w.s.Backends) > 0 {
+				ok = w.tasks()
+				p := w.s.Backends[r.Intn(len(w.s.Backends))]
+				if ok {
+					w.drainOnly(p, r.Range(1, 20000))
+					for k := r.Range(1, 3); k > 0 && ok; k-- {
+						c := r.Intn(nc)
+						ok = w.send(c, nextReq(c))
+					}
+				}
+				if ok {
+					ok = w.tasks()
+				}
+				if ok {
+					ok = w.writable(p)
+				}
+				tagset["late-writable"] = true
 			}
 		case 9:
 			// a client reads a little (unless it is the one that never reads)
